@@ -15,7 +15,7 @@ Local Open Scope Z_scope.
 Theorem C06_emplace_constructs_each_object_once : forall L pv vals bid m a,
   (length L <= length pv)%nat -> length vals = length L ->
   keep ctor_of (snd (fst (store_from L pv vals bid m a))) =
-    obj_addrs ntc L (fst (place_from L pv (cnts_of vals) a)) (cnts_of vals).
+    obj_addrs (ntc false) L (fst (place_from L pv (cnts_of vals) a)) (cnts_of vals).
 Proof. exact store_from_constructs. Qed.
 Print Assumptions C06_emplace_constructs_each_object_once.
 
@@ -30,7 +30,7 @@ Print Assumptions C06_destruct_destroys_each_object_once.
    (found through the load path, counts read back from memory) is exactly what the
    emplacement of that element constructed *)
 Theorem C06_emplace_then_destruct_balanced : forall L fixed t bid m a,
-  wf_plist L = true -> (forall p, In p L -> ntc p = ntd p) ->
+  wf_plist L = true -> (forall mv p, In p L -> ntc mv p = ntd p) ->
   tuple_ok L (fixed_counts L fixed) 0 t ->
   let r := store L t bid m a in
   let m' := fst (fst r) in
@@ -57,7 +57,7 @@ Proof. vm_compute. reflexivity. Qed.
    are still there: relocate_elems_src, load_from_agree).  Objects are (block, offset, size);
    fresh block ids come from a counter. *)
 Theorem C06_step_turns_held_objects_into_held_objects : forall L, wf_plist L = true ->
-  (forall p, In p L -> ntc p = ntd p) -> cft L = true ->
+  (forall mv p, In p L -> ntc mv p = ntd p) -> cft L = true ->
   forall junk v nb s o offs,
   RepO L v (s_elems s) offs -> v_cap v = s_cap s -> svalid L (fixed_counts L (v_fixed v)) s o -> lt_ok s o ->
   (exists b0, v_bid v = Some b0 /\ (b0 < nb)%nat) ->
@@ -74,7 +74,7 @@ Print Assumptions C06_step_turns_held_objects_into_held_objects.
    the constructions and the destructions coincide as multisets - every object constructed
    (by emplace_back or by a relocation) is destroyed exactly once, nothing else is *)
 Theorem C06_whole_life_objects_balanced : forall L cap budget fixed aid junk bid tbid h,
-  wf_plist L = true -> (forall p, In p L -> ntc p = ntd p) -> cft L = true ->
+  wf_plist L = true -> (forall mv p, In p L -> ntc mv p = ntd p) -> cft L = true ->
   0 <= cap -> Forall (fun c => 0 <= c) fixed ->
   let v0 := fst (mkvec L cap budget fixed aid junk bid tbid) in
   let s0 := {| s_cap := cap; s_elems := [] |} in
